@@ -303,10 +303,17 @@ func bloomEntries(e *bs.BloomExpression, fields, tokens, fts map[string]bool) {
 func rsemScenario(c *Ctx, sh *shard, scen int) {
 	ctx := context.Background()
 	tk := c.genTokenizer()
+	// profile "copy-heavy": every partition lives in one file only, so a merge copies its blocks
+	// verbatim (copyDataBlock) and must re-index them for the rebuilt file-level filters; with a
+	// tokenizer that returns substrings of its input and uncompressed row data
+	copyHeavy := c.chance(0.25)
+	if copyHeavy {
+		tk = tokenizers[1+c.intn(len(tokenizers)-1)]
+	}
 	cfg := bs.DefaultBloomSearchEngineConfig()
 	cfg.Tokenizer = tk.fn
 	cfg.MinMaxIndexes = []string{"n"}
-	usePartition := c.chance(0.6)
+	usePartition := c.chance(0.6) || copyHeavy
 	if usePartition {
 		cfg.PartitionFunc = func(row map[string]any) string { p, _ := row["p"].(string); return p }
 	}
@@ -315,6 +322,9 @@ func rsemScenario(c *Ctx, sh *shard, scen int) {
 	cfg.MaxBufferedTime = time.Hour
 	cfg.BloomFalsePositiveRate = []float64{0.5, 0.1, 0.001}[c.intn(3)]
 	cfg.RowDataCompression = []bs.CompressionType{bs.CompressionNone, bs.CompressionSnappy, bs.CompressionZstd}[c.intn(3)]
+	if copyHeavy && c.chance(0.6) {
+		cfg.RowDataCompression = bs.CompressionNone
+	}
 	var meta bs.MetaStore
 	var data bs.DataStore
 	useFS := c.chance(0.35)
@@ -357,6 +367,9 @@ func rsemScenario(c *Ctx, sh *shard, scen int) {
 		delete(m, "n")
 		if usePartition {
 			tr.partition = parts[c.intn(len(parts))]
+			if copyHeavy {
+				tr.partition = fmt.Sprintf("only%d", i/3) // three consecutive rows per partition: one file each
+			}
 			m["p"] = tr.partition
 		}
 		// rows of partition "a" tend to carry the minmax key, rows of colliding ids tend not to
@@ -379,6 +392,9 @@ func rsemScenario(c *Ctx, sh *shard, scen int) {
 	}
 	for i := 0; i < len(rows); {
 		n := 1 + c.intn(6)
+		if copyHeavy {
+			n = 3 * (1 + c.intn(2))
+		}
 		if i+n > len(rows) {
 			n = len(rows) - i
 		}
@@ -388,13 +404,13 @@ func rsemScenario(c *Ctx, sh *shard, scen int) {
 		}
 		must(eng.IngestRows(ctx, batch, make(chan error, 1)))
 		i += n
-		if c.chance(0.3) {
+		if c.chance(0.3) || copyHeavy {
 			must(eng.Flush(ctx))
 		}
 	}
 	must(eng.Flush(ctx))
 	merged := false
-	if c.chance(0.45) {
+	if c.chance(0.45) || copyHeavy {
 		if _, err := eng.Merge(ctx); err != nil {
 			c.violation("e2e-merge-error", "Merge failed on healthy stores: "+err.Error(), nil)
 		} else {
@@ -509,6 +525,7 @@ func rsemScenario(c *Ctx, sh *shard, scen int) {
 		}
 	}
 	c.dist("e2e_external_file", fmt.Sprint(external))
+	c.dist("e2e_profile", map[bool]string{true: "copy-heavy", false: "random"}[copyHeavy])
 	c.dist("e2e_scenario", fmt.Sprintf("fs=%v merged=%v partition=%v tok=%s comp=%s fpr=%v", useFS, merged, usePartition, tk.name, cfg.RowDataCompression, cfg.BloomFalsePositiveRate))
 
 	// observe the layout through the public helpers
@@ -627,6 +644,62 @@ func rsemScenario(c *Ctx, sh *shard, scen int) {
 	if stored != len(rows) {
 		c.violation("e2e-row-count", fmt.Sprintf("stored %d rows, ingested and acknowledged %d", stored, len(rows)), nil)
 		return
+	}
+
+	// C02 strictness, directly: a single condition never holds on a block that lacks the metadata it
+	// references, for every operator, through EvaluateDataBlockMetadata, FilterDataBlocks and Query
+	if len(c.Props) == 0 || c.Props["C02"] {
+		for _, op := range allOps {
+			nc := c.genNCond(near["n"])
+			nc.Operator = op
+			sc := c.genSCond()
+			sc.Operator = op
+			for _, key := range []string{"n", "zz"} {
+				pe := bs.MinMax(key, nc)
+				pf := &bs.QueryPrefilter{Expression: &pe}
+				lacking := map[int]bool{}
+				var metas []bs.DataBlockMetadata
+				for _, of := range files {
+					for _, ob := range of.blocks {
+						metas = append(metas, ob.meta)
+						if _, has := ob.meta.MinMaxIndexes[key]; !has {
+							if bs.EvaluateDataBlockMetadata(&ob.meta, pf) {
+								c.violation("c02-strict-minmax", fmt.Sprintf("block without minmax key %q satisfies %s condition", key, op), map[string]any{"cond": nc})
+							}
+							for _, r := range ob.rows {
+								lacking[r.id] = true
+							}
+						}
+					}
+				}
+				for _, kept := range bs.FilterDataBlocks(metas, pf) {
+					if _, has := kept.MinMaxIndexes[key]; !has {
+						c.violation("c02-strict-minmax", fmt.Sprintf("FilterDataBlocks keeps a block without key %q for %s", key, op), nil)
+					}
+				}
+				if key == "zz" || c.chance(0.3) {
+					res, err := eng.Query(ctx, &bs.Query{Prefilter: pf})
+					must(err)
+					for res.Next() {
+						if id, ok := res.Row()["_id"].(float64); ok && lacking[int(id)] {
+							c.violation("c02-strict-minmax", fmt.Sprintf("Query with %s on key %q returned row %d from a block that lacks the key", op, key, int(id)), map[string]any{"cond": nc})
+							break
+						}
+					}
+					res.Close()
+				}
+				c.count([]string{"C02"}, fmt.Sprintf("strict:%s:%s:%v:%d", op, key, nc, scen), true, nil)
+			}
+			pe := bs.Partition(sc)
+			pf := &bs.QueryPrefilter{Expression: &pe}
+			for _, of := range files {
+				for _, ob := range of.blocks {
+					if ob.meta.PartitionID == "" && bs.EvaluateDataBlockMetadata(&ob.meta, pf) {
+						c.violation("c02-strict-partition", fmt.Sprintf("block without partition id satisfies %s partition condition", op), map[string]any{"cond": sc})
+					}
+				}
+			}
+		}
 	}
 
 	// hit set over a few rows
